@@ -484,7 +484,7 @@ func (e *env) directed(rng *rand.Rand) {
 
 func batch(r *vh.Run, i int, nreq int) {
 	rng := r.Rand(i)
-	kind := []vh.StoreKind{vh.Mem, vh.Dir}[i%2]
+	kind := []vh.StoreKind{vh.Mem, vh.Dir, vh.Mem, vh.Dir, vh.MemDir}[i%5] // (the memory store over a directory is what `serve --store-type mem` runs)
 	root := ""
 	if kind != vh.Mem {
 		root = r.TempDir("c15")
